@@ -191,7 +191,8 @@ class Chunk:
 
 MANIFEST_VARIANTS = ["ok", "ok", "dup-first", "dup-first", "dup-12", "zero-first", "zero-late", "dup-late", "thr0", "thr-gt", "no-shards",
                      "one-shard", "expired", "exp-soon", "exp-far", "exp-overflow", "wrong-id", "truncated", "garbage", "empty", "v1", "v2",
-                     "many-shards", "trailing"]
+                     "many-shards", "trailing", "idx-255", "idx-255", "idx-edge", "idx-edge", "thr255"]
+IDX_EDGES = [0, 1, 127, 128, 254, 255]
 
 
 def variant_uri(rng, c: Chunk, v: str) -> bytes:
@@ -248,6 +249,19 @@ def variant_uri(rng, c: Chunk, v: str) -> bytes:
     if v == "many-shards":
         n = rng.choice([200, 255])
         return c.uri(shards=[((i % 255) + 1, c.key) for i in range(n)], thr=rng.choice([1, 3, 255]), tot=255)
+    if v == "idx-255":                             # the largest index byte, among the shares combine looks at
+        j = rng.randrange(0, max(1, c.thr))
+        sh[j] = (255, sh[j][1])
+        return c.uri(shards=sh)
+    if v == "idx-edge":                            # index bytes at the edges of the 8-bit range (constant-polynomial shares stay valid)
+        for j in rng.sample(range(len(sh)), rng.randint(1, len(sh))):
+            sh[j] = (rng.choice(IDX_EDGES), sh[j][1])
+        return c.uri(shards=sh)
+    if v == "thr255":                              # threshold = total = 255 shards with indices 1..255 (or 255 down to 1)
+        order = list(range(1, 256))
+        if rng.random() < 0.5:
+            order.reverse()
+        return c.uri(shards=[(i, c.key) for i in order], thr=255, tot=255)
     if v == "trailing":
         return c.uri(extra=bytes(rng.randrange(256) for _ in range(rng.choice([1, 7, 40]))))
     raise ValueError(v)
@@ -594,6 +608,14 @@ def generate(ctx, budget):
     rng = ctx.rng
     big = ctx.tier == "thorough"
     cases = [case_known(rng, w) for w in KNOWN]
+    # witness of the round-4 seeded change: shard index 255 among the first `threshold` shares, through ANNOUNCE + CHUNK and control FETCH
+    w4 = random.Random("C35-index-255")
+    ops4, keys4 = _peer_ops(w4, ["p1"])
+    c4 = Chunk(w4, "c1", 64, 3, 5, WALL0_S + 3600)
+    u4 = c4.uri(shards=[(255, c4.key)] + c4.shards[1:])
+    ops4 += [f"frame p1 {hx(sign(keys4['p1'], m_announce(c4.cid, id32('p1'), u4)))}", f"frame p1 {hx(sign(keys4['p1'], m_chunk(c4.cid, c4.cipher)))}",
+             ctl(["COMMAND:FETCH", b"MANIFEST:" + u4, "STREAM:client"]), ctl(["COMMAND:PING"])]
+    cases.append(Case(ops=ops4, tag="index-255:witness"))
     # real accept threads on loopback: a silent / never-reading client ahead of a well-behaved one (~4 s of real time:
     # kHandshakeTimeout is a compile-time 2 s; the control timeout is shortened to 300 ms through the Impl member)
     cases.append(Case(ops=["rt stall"], tag="real-threads:stall"))
@@ -719,7 +741,7 @@ def spec() -> Spec:
         env_extra={"ASAN_OPTIONS": "detect_leaks=0:abort_on_error=0:allocator_may_return_null=1:"
                                    "detect_stack_use_after_return=0:max_allocation_size_mb=256"},
         rule="cases of 3-40 deliveries through the real thread functions: signed ANNOUNCE/CHUNK with adversarial manifests (24 variants: "
-             "duplicate/zero indices inside and beyond the threshold, threshold 0 / > count, no shards, expiries, wrong id, truncated, garbage, "
+             "duplicate/zero indices inside and beyond the threshold, index bytes 0/1/127/128/254/255, threshold = total = 255, threshold 0 / > count, no shards, expiries, wrong id, truncated, garbage, "
              "old versions, 255 shards, trailing bytes) for chunks held / not held, then control FETCH of the same; every message type x "
              "truncation / bit flip / version / type / length-field mutation, signed with the right key, another key, or unsigned; raw garbage on "
              "an established session (length fields around 1 MiB); ANNOUNCE with an assigned shard and an endpoint / relay hints whose "
